@@ -436,4 +436,55 @@ example : runMulti (maxLen [[45, 49, 50, 32, 120, 13, 10, 121, 13], [55, 32, 97,
   simp only [List.map] at h
   rw [e] at h; exact h
 
+/-! ## Wave 4: degenerate arguments — `read_vec(0)` consumes nothing
+
+Motivated by `seeded/C08_m13` (a `debug_assert!` in `read_vec` that calls `is_eof()`, which skips whitespace: in the debug
+build `read_vec(0)` swallows blanks and line ends, visible in the next `read_line`). In the model and in the specification a
+`read_vec(0)` of any element shape looks at no byte: inserting one ANYWHERE in a script changes nothing but the inserted
+`[]` itself — from every state, for every fuel (no invariant needed), also when the script panics or leaves the domain. -/
+
+/-- the model: a `read_vec(0)` at the front returns `[]` and leaves the state as it is (buffer, positions, eof flag, source) -/
+theorem read_vec_zero_consumes_nothing (fuel : Nat) (as : List Atom) (ops : List Op) (s : RState) :
+    runScript fuel (.vec as 0 :: ops) s = .out (.vec []) :: runScript fuel ops s := by
+  simp [runScript, runOp, readVec]
+
+/-- the model: a `read_vec(0)` inserted after any prefix `pre`: deleting its result gives the trace of the script without it -/
+theorem read_vec_zero_anywhere (fuel : Nat) (as : List Atom) (pre post : List Op) (s : RState) :
+    (runScript fuel (pre ++ .vec as 0 :: post) s).eraseIdx pre.length = runScript fuel (pre ++ post) s := by
+  induction pre generalizing s with
+  | nil => simp [runScript, runOp, readVec]
+  | cons op pre ih =>
+    simp only [List.cons_append, runScript, List.length_cons]
+    split
+    · simp
+    · simp [ih]
+
+/-- the specification: the same, and the call is inside the property's domain wherever it stands -/
+theorem spec_read_vec_zero_anywhere (as : List Atom) (pre post : List Op) (rest : List UInt8) :
+    (specScript (pre ++ .vec as 0 :: post) rest).eraseIdx pre.length = specScript (pre ++ post) rest ∧
+    inDomOp (.vec as 0) rest = true := by
+  refine ⟨?_, by simp [inDomOp, inDomVec]⟩
+  induction pre generalizing rest with
+  | nil => simp [specScript, specOp, specVec]
+  | cons op pre ih =>
+    simp only [List.cons_append, specScript, List.length_cons]
+    split
+    · simp
+    · simp
+    · simp [ih]
+
+/-! non-vacuity: `5 ␠␊␠x␊` — `read_vec(0)` of a tuple shape between the number and the line reads: the first line is the blank
+    rest of line one, the second line keeps its indentation (what `seeded/C08_m13` loses in the debug build) -/
+def scriptV0 : List Op := [.read (.int ⟨false, 8⟩), .vec [.int ⟨true, 32⟩, .str] 0, .line, .line, .line]
+example : specScript scriptV0 [53, 32, 10, 32, 120, 10] =
+    [.out (.val (.int 5)), .out (.vec []), .out (.line (some [32])), .out (.line (some [32, 120])), .out (.line none)] := by decide +kernel
+example : runScript 7 scriptV0 (init 2 [.data [53], .intr, .data [32, 10], .data [32, 120, 10]]) =
+    [.out (.val (.int 5)), .out (.vec []), .out (.line (some [32])), .out (.line (some [32, 120])), .out (.line none)] := by decide +kernel
+example : domPrefix scriptV0 [53, 32, 10, 32, 120, 10] = 5 := by decide +kernel
+/-- the theorem instantiated (prefix of one call), and on a script that panics BEFORE the inserted call (both traces end there) -/
+example : (specScript scriptV0 [53, 32, 10, 32, 120, 10]).eraseIdx 1 =
+    specScript [.read (.int ⟨false, 8⟩), .line, .line, .line] [53, 32, 10, 32, 120, 10] :=
+  (spec_read_vec_zero_anywhere [.int ⟨true, 32⟩, .str] [.read (.int ⟨false, 8⟩)] [.line, .line, .line] _).1
+example : specScript ([.read (.int ⟨true, 8⟩)] ++ .vec [.chr] 0 :: [.line]) [49, 50, 56] = [.panic .overflow] := by decide +kernel
+
 end Rlib.C08
